@@ -1,6 +1,6 @@
 (* C04 — each operator application is emitted once, in the innermost enclosing scope.  Property theorems only. *)
 From Coq Require Import List String NArith Arith Bool.
-From Spox Require Import Base IR Show Build Sem Plan Validate BuildFacts SemFacts.
+From Spox Require Import Base IR Show Build Sem Plan Validate BuildFacts SemFacts DfsFacts.
 Import ListNotations.
 
 (* The source nodes of all emitted nodes (all nested graphs) are duplicate-free and are exactly the non-argument nodes on which
@@ -47,3 +47,12 @@ Theorem C04_lcp_is_lca :
   (forall q, In q ps -> prefix l q) /\ (forall c, (forall q, In q ps -> prefix c q) -> prefix c l).
 Proof. exact lcp_all_spec. Qed.
 Print Assumptions C04_lcp_is_lca.
+
+(* The traversal itself (no validator involved): on an acyclic dependency relation the builder's DFS postorder lists every node
+   once, lists every dependency (input or subgraph result) of a node before the node, and contains the source. *)
+Theorem C04_postorder_spec :
+  forall adj (rank : nref -> nat), (forall u v, In v (adj u) -> rank v < rank u) ->
+  forall fuel src, rank src < fuel ->
+  let post := postorder fuel adj src in NoDup post /\ closed nref adj post /\ In src post.
+Proof. exact postorder_spec. Qed.
+Print Assumptions C04_postorder_spec.
